@@ -30,6 +30,7 @@ DIMS = {
     "copy_paint": ["blue", "same", "black", "alpha", "current", "var", "lin_bbox", "lin_user", "rad_bbox", "rad_focal_fr"],
     "twin": ["none", "same_glyph", "cross_glyph"],
     "shared_grad": [False, True],
+    "grad_twice": [False, True],
     "lin_vec": ["bbox_h", "diag", "vert", "pct", "short", "user"],
     "lin_gt": ["none", "rot", "nonuniform", "skew", "translate", "involutory", "rotscale"],
     "lin_spread": ["pad", "repeat", "reflect"],
@@ -87,6 +88,8 @@ def relevant(dev):
     if dev.get("twin") == "cross_glyph" and any(k.startswith("lin_") for k in dev):
         return False  # ... and the blob's
     if dev.get("shared_grad") and (any(k.startswith("lin_") or k.startswith("rad_") for k in dev) or dev.get("twin", "none") != "none" or dev.get("nglyphs") == 1 or dev.get("stack") == "one"):
+        return False
+    if dev.get("grad_twice") and dev.get("stack") == "one" and dev.get("nglyphs") == 1:
         return False
     if dev.get("grp") == "emptyglyph" and dev.get("nglyphs") == 1:
         return False
@@ -237,6 +240,10 @@ def mk(a):
     else:
         a_nodes = [donor, Shape(P(OUT["tri"], aff.tr(20, 15)), Solid("yellow"), label="tri-y"), blob,
                    Shape(P(OUT["quad"], aff.tr(30, 5)), Solid("#0000FF80"), label="quad-b")]
+    if a.get("grad_twice") and st != "one":
+        # one gradient element referenced by two shapes of a glyph whose bounding boxes differ (objectBoundingBox
+        # units resolve per referencing shape)
+        a_nodes = a_nodes + [Shape(P(OUT["quad"], aff.tr(42, 58)), lin, opacity=lin_shape_op, label="quad-same-lin")]
     where = a.get("where", "other")
     if where in ("same", "both"):
         a_nodes = a_nodes + [Shape(copy_d, copy_paint, opacity=copy_op, label="copy-in-A")]
@@ -266,6 +273,8 @@ def mk(a):
         b_nodes = [copy, Group(0.5, [tri, ov])]
         if g == "emptyglyph":
             extra_glyphs.append(Glyph((0xE005,), vb, []))
+    if a.get("grad_twice"):
+        b_nodes = b_nodes + [Shape(P(OUT["tri"], aff.tr(2, 58)), rad, label="tri-same-rad")]
     seq = {1: (0xE001,), 2: (0xE001, 0xE002), 3: (0xE001, 0x200D, 0xE002)}[a["seqlen"]]
     B = Glyph(seq, vb, b_nodes)
     n = a["nglyphs"]
